@@ -70,6 +70,8 @@ _g("G-INT", [("S", (0, "S")), ("S", (1,)), ("S", ()), ("S", ("A", 0)), ("A", (1,
 _g("G-DUP2", [("S", "A S"), ("S", "A S"), ("S", "a"), ("A", "b"), ("A", ""), ("S", "a")], note="a duplicated rule with nonterminals in its body")
 _g("G-HEADLESS", [("S", "A"), ("A", "a"), ("A", "Z"), ("S", "Z b"), ("A", "S")], note="symbol Z occurs only in rule bodies (neither terminal nor head)")
 _g("G-REP", [("S", "A"), ("S", "A A"), ("A", "a"), ("A", "b A"), ("S", "A S A"), ("S", "b")], note="same symbol set with different multiplicities in consecutive rules")
+_g("G-NB", [("S", "A B c"), ("A", "a"), ("A", ""), ("B", "b"), ("B", ""), ("S", "B A S")], V=("a", "b", "c"),
+   note="rule of length three whose first two symbols are both nullable (binarisation folds exactly that pair)")
 _g("G-MB", [("S", "é S"), ("S", "ab"), ("S", "€ T"), ("T", "𝄞"), ("T", "x"), ("S", "é")],
    V=("é", "ab", "€", "𝄞", "x"), note="multi-character and multi-byte terminals")
 
